@@ -283,6 +283,48 @@ macro_rules! rt_nopad {
     };
 }
 
+/// Seek-based round trip: encrypt L bytes sequentially from the start; a second object decrypts the
+/// tail after `seek(OFF)`, and a third one after seeking to a position READ BACK from the encryptor
+/// (current_pos - (L - OFF)).
+macro_rules! rt_seek {
+    ($name:ident, $unw:expr, $mk:expr, $b:expr, $l:expr, $off:expr) => {
+        #[kani::proof]
+        #[kani::unwind($unw)]
+        pub fn $name() {
+            const B: usize = $b;
+            const L: usize = $l;
+            const OFF: usize = $off;
+            let key: [u8; 2] = kani::any();
+            let iv: [u8; B] = kani::any();
+            let msg: [u8; L] = kani::any();
+            let mut ct = msg;
+            let mut e = $mk(key, &iv);
+            e.apply_keystream(&mut ct);
+            let end = e.current_pos::<u128>();
+            let mut d1 = ct;
+            let mut s1 = $mk(key, &iv);
+            s1.seek(OFF as u64);
+            s1.apply_keystream(&mut d1[OFF..]);
+            let mut d2 = ct;
+            let mut s2 = $mk(key, &iv);
+            s2.seek(end - (L - OFF) as u128);
+            s2.apply_keystream(&mut d2[OFF..]);
+            let mut i = OFF;
+            while i < L {
+                assert!(d1[i] == msg[i], "decrypting the tail after seek(off) does not invert sequential encryption");
+                assert!(d2[i] == msg[i], "decrypting after seeking to a read-back position does not invert encryption");
+                i += 1;
+            }
+            kani::cover!(true);
+        }
+    };
+}
+fn sk_ctr32be(key: [u8; 2], iv: &[u8; 4]) -> ctr::Ctr32BE<UfE<U4, U2>> { ctr::Ctr32BE::new(&key.into(), blk::<U4>(iv)) }
+fn sk_ctr64le(key: [u8; 2], iv: &[u8; 8]) -> ctr::Ctr64LE<UfE<U8, U1>> { ctr::Ctr64LE::new(&key.into(), blk::<U8>(iv)) }
+fn sk_ctr128be(key: [u8; 2], iv: &[u8; 16]) -> ctr::Ctr128BE<UfE<U16, U1>> { ctr::Ctr128BE::new(&key.into(), blk::<U16>(iv)) }
+fn sk_ctr128le(key: [u8; 2], iv: &[u8; 16]) -> ctr::Ctr128LE<UfE<U16, U2>> { ctr::Ctr128LE::new(&key.into(), blk::<U16>(iv)) }
+fn sk_belt(key: [u8; 2], iv: &[u8; 16]) -> belt_ctr::BeltCtr<UfE<U16, U1>> { crate::common::belt_alias::<U1>(key, iv) }
+
 // ---- quick -----------------------------------------------------------------------------------
 rt_blocks!(rt_cbc_b2_w2_n3, 48, cbc, U2, 2, U2, 2, U2, 3, U2, 2);
 rt_blocks!(rt_pcbc_b2_w2_n3, 48, pcbc, U2, 2, U2, 2, U2, 3, U2, 2);
@@ -314,6 +356,9 @@ rt_stream_ctr!(rt_ctr64le_b8_w2_l17, 64, Ctr64LE, u64, U8, 8, U2, 17);
 rt_stream_ctr!(rt_ctr128be_b16_w1_l18, 80, Ctr128BE, u128, U16, 16, U1, 18);
 rt_stream_ctr!(rt_ctr128le_b16_w2_l40, 100, Ctr128LE, u128, U16, 16, U2, 40); // one-shot: parallel group; piecewise: single blocks
 rt_stream_ctr!(rt_ctr64be_b8_w2_l20, 64, Ctr64BE, u64, U8, 8, U2, 20);
+rt_seek!(rt_seek_ctr32be_b4_l11_o5, 48, sk_ctr32be, 4, 11, 5);
+rt_seek!(rt_seek_ctr128be_b16_l40_o32, 100, sk_ctr128be, 16, 40, 32);
+rt_seek!(rt_seek_belt_l40_o19, 100, sk_belt, 16, 40, 19);
 rt_stream_alias!(rt_ofb_b2_l7, 48, ofb::Ofb<UfE<U2, U2>>, U2, 2, 7);
 rt_stream_alias!(rt_belt_l18, 80, BeltPreset, U16, 16, 18);
 rt_cts!(rt_cts_cbc_cs1_b1_w2_l8_from6, 48, CbcCs1, U1, 1, U2, 8, 6);
@@ -349,6 +394,8 @@ rt_oneshot!(t_rt_cfb_oneshot_b4_w2_l13, 48, cfb_mode, U4, 4, U2, 13);
 rt_oneshot!(t_rt_cfb8_oneshot_b3_l7, 48, cfb8, U3, 3, U1, 7);
 rt_buf!(t_rt_buf_b3_l10_a4_c7, 48, U3, 3, 10, 4, 7);
 rt_buf!(t_rt_buf_b1_l4_a1_c3, 48, U1, 1, 4, 1, 3);
+rt_seek!(t_rt_seek_ctr64le_b8_l20_o8, 64, sk_ctr64le, 8, 20, 8);
+rt_seek!(t_rt_seek_ctr128le_b16_l40_o17, 100, sk_ctr128le, 16, 40, 17);
 rt_stream_ctr!(t_rt_ctr32be_b16_w2_l33, 100, Ctr32BE, u32, U16, 16, U2, 33);
 rt_stream_ctr!(t_rt_ctr64le_b16_w1_l33, 100, Ctr64LE, u64, U16, 16, U1, 33);
 rt_stream_alias!(t_rt_ofb_b4_l13, 48, ofb::Ofb<UfE<U4, U3>>, U4, 4, 13);
